@@ -149,6 +149,9 @@ def freeze(st, k):
     v = st.env.pop(k, None)
     if v is None or k.startswith('*') or len(v) < 4 or CONST_RE.match(v):
         return
+    m = re.fullmatch(r'\((.*)%(\d+)\)', v)
+    if m and ID_RE.fullmatch(k):
+        st.facts.add(('LT(%s,%s)' % (k, m.group(2)), True))      # the value was a remainder: it stays below the modulus
     if any(v in a for a, _ in st.facts):
         st.facts = {(a.replace(v, k), t) for a, t in st.facts}
     for k2, v2 in list(st.env.items()):
@@ -215,6 +218,7 @@ class Interp:
         return True
 
     def on_call(self, e, st): pass
+    def pre_call(self, e, st): pass      # before the call's side effects on its arguments/receiver are applied
     def on_assign(self, lhs, rhs, st): pass
     def on_return(self, s, st): pass
     def on_exit(self, st): pass
@@ -241,6 +245,7 @@ class Interp:
                 self.effects(a, st)
             if e.get('fn') is not None:
                 self.effects(e['fn'], st)
+            self.pre_call(e, st)
             self.havoc_args(e, st)
             self.container_model(e, st)
             self.on_call(e, st)
